@@ -8,7 +8,9 @@
 (*       TLC demonstrates the defect; ORIGINAL=FALSE is the repaired one.     *)
 EXTENDS ScanR, TLC
 
-CONSTANTS Alphabet, MaxHay, MaxNeedle, MaxBuf, MaxStart, ORIGINAL, WithLimit
+CONSTANTS Alphabet, MaxHay, MaxNeedle, MaxBuf, MaxStart, ORIGINAL, WithLimit,
+          SHORTREADS,   \* a read may return fewer bytes than asked for although more follow (raw streams); only an empty read ends the data
+          SHORTISEOF    \* wrong variant: a read shorter than the buffer is taken for the last one
 
 VARIABLES hay, needle, buf, start, limit, pos, saved, out, pc
 vars == <<hay, needle, buf, start, limit, pos, saved, out, pc>>
@@ -34,7 +36,8 @@ Iter ==
     /\ pc = "loop"
     /\ IF limit # 0 /\ pos > limit
        THEN pc' = "done" /\ UNCHANGED <<pos, saved, out>>
-       ELSE LET block == Slice(hay, pos, pos + buf)
+       ELSE \E n \in (IF SHORTREADS THEN 1..buf ELSE {buf}) :
+            LET block == Slice(hay, pos, pos + n)
                 ov    == Len(needle) - 1
             IN IF block = <<>>
                THEN pc' = "done" /\ UNCHANGED <<pos, saved, out>>
@@ -45,7 +48,7 @@ Iter ==
                        /\ saved' = IF ORIGINAL THEN PyTail(d, ov)
                                    ELSE IF ov = 0 THEN <<>> ELSE PyTail(d, ov)
                        /\ pos'   = pos + Len(block)
-                       /\ pc'    = "loop"
+                       /\ pc'    = IF SHORTISEOF /\ Len(block) < buf THEN "done" ELSE "loop"
     /\ UNCHANGED <<hay, needle, buf, start, limit>>
 
 Done == pc = "done" /\ UNCHANGED vars
